@@ -157,6 +157,25 @@ fn plans(prop: &str, tier: &str) -> Vec<Plan> {
                     }
                 }
             }
+            out.push(Plan {
+                name: "c09-tree",
+                cfgs: tree_cfgs(
+                    "C09",
+                    &[
+                        StageKind::Head(Lim::Static(3)),
+                        StageKind::Head(Lim::Static(65)),
+                        StageKind::Tail(Lim::Static(3)),
+                        StageKind::Tail(Lim::Static(65)),
+                        StageKind::Skip(Lim::Static(2)),
+                        StageKind::Skip(Lim::Static(64)),
+                        StageKind::Head(Lim::DynInit(64, LimSrc::Queue)),
+                        StageKind::Tail(Lim::DynInit(64, LimSrc::Obs)),
+                        StageKind::Skip(Lim::DynInit(1, LimSrc::Queue)),
+                    ],
+                    1,
+                ),
+                depth: if q { 2 } else { 3 },
+            });
             out.push(Plan { name: "c09-bursts", cfgs, depth: if q { 3 } else { 4 } });
         }
         "C10" => {
@@ -338,6 +357,23 @@ fn plans(prop: &str, tier: &str) -> Vec<Plan> {
                 }
             }
             out.push(Plan { name: "c12-late-stack", cfgs: late, depth: if q { 4 } else { 5 } });
+            // chains over vectors beyond one imbl chunk
+            out.push(Plan {
+                name: "c12-tree",
+                cfgs: tree_chain_cfgs(
+                    "C12",
+                    &[
+                        vec![StageKind::Filter, StageKind::Sort],
+                        vec![StageKind::Sort, StageKind::Filter],
+                        vec![StageKind::Skip(Lim::Static(2)), StageKind::Filter],
+                        vec![StageKind::Filter, StageKind::Head(Lim::Static(40))],
+                        vec![StageKind::Tail(Lim::Static(70)), StageKind::SortBy],
+                        vec![StageKind::FilterMap, StageKind::Tail(Lim::Static(3))],
+                    ],
+                    3,
+                ),
+                depth: if q { 2 } else { 3 },
+            });
             // ... and on one that is in the middle of an input item: manual polls,
             // no drain before the stage is stacked (unbatched: only there a second
             // diff can be parked inside the adapter)
@@ -594,21 +630,28 @@ fn plans(prop: &str, tier: &str) -> Vec<Plan> {
 /// of 64-item chunks there), built up so that the first chunk starts at slot 0
 /// or - after `pop_front` calls before anybody subscribes - does not.
 fn tree_cfgs(prop: &'static str, kinds: &[StageKind], nkeys: u8) -> Vec<Cfg> {
+    let chains: Vec<Vec<StageKind>> = kinds.iter().map(|k| vec![*k]).collect();
+    tree_chain_cfgs(prop, &chains, nkeys)
+}
+
+fn tree_chain_cfgs(prop: &'static str, chains: &[Vec<StageKind>], nkeys: u8) -> Vec<Cfg> {
     let mut cfgs = Vec::new();
-    for &kind in kinds {
+    for kind in chains {
         for batched in [false, true] {
             for len in [66usize, 131] {
                 for pre in [0u8, 1, 2] {
                     for capacity in [16usize, 1] {
                         let init: Vec<u8> = (0..len).map(|i| ((i * 7 + i / 3) % nkeys as usize) as u8).collect();
                         cfgs.push(Cfg {
-                            stages: vec![kind],
+                            stages: kind.clone(),
                             batched,
                             init,
                             nkeys,
                             capacity,
                             alphabet: Alphabet::Large,
                             max_len: (len + 3) as u8,
+                            max_limit: 3,
+                            limit_values: vec![0, 2, 64, 65, 70, 200],
                             policy: Policy::Manual,
                             pre_pop_front: pre,
                             drop_vec: true,
